@@ -26,7 +26,8 @@ EXPLANATION = (
     "attribute; (R6) the streamed file dedispersion places block i at i*(gulp-maxdelay) for the very gulp handed to read_plan, "
     "uses maxdelay as both skipback and kernel limit, accumulates into zeros and declares range-length minus maxdelay samples "
     "(C06's overlap-save rules re-evaluated); (R7) the read plan the streamed dedispersion consumes satisfies C01's rules "
-    "(re-evaluated here). Not decided: delay values, monotonicity, float32 rounding-boundary cases, restoration of a pulse."
+    "(re-evaluated here). Not decided: delay values, monotonicity, float32 rounding-boundary cases, restoration of a pulse. "
+    "Since F34/F38: the delay arrays keep one entry per channel (no unqualified squeeze; exactly the DM axis of a scalar DM is dropped) (R2), and the array handed to every index-form kernel is get_dmdelays(dm) minus a lead min(0, min delay), so that no index t + delay is negative (R3)."
 )
 KMOD = "sigpyproc.core.kernels"
 PARAMS = "sigpyproc.params"
